@@ -95,6 +95,17 @@ def validate(srcdir):
     return results
 
 
+def run_parallel(ids, tier, props_override, scratch, jobs):
+    """jobs scratch worktrees side by side (each check already uses many cores; 3 overlap well)"""
+    parts = [ids[i::jobs] for i in range(jobs)]
+    with cf.ThreadPoolExecutor(max_workers=jobs) as ex:
+        futs = [ex.submit(run, part, tier, props_override, "%s_%d" % (scratch, i)) for i, part in enumerate(parts) if part]
+        out = []
+        for f in futs:
+            out.extend(f.result())
+    return sorted(out, key=lambda r: r["id"])
+
+
 def run(ids, tier, props_override=None, scratch=None):
     """apply each seeded change, run its check, undo.  With scratch=<dir> a worktree of /repo HEAD is
     created there and used as the tree under test (VERIF_REPO), so /repo itself is never touched."""
@@ -150,6 +161,7 @@ if __name__ == "__main__":
         tier = "quick"
         props = None
         scratch = None
+        jobs = 1
         ids = []
         i = 0
         while i < len(args):
@@ -159,9 +171,15 @@ if __name__ == "__main__":
                 props = args[i + 1].split(","); i += 2
             elif args[i] == "--scratch":
                 scratch = args[i + 1]; i += 2
+            elif args[i] == "--jobs":
+                jobs = int(args[i + 1]); i += 2
+
             else:
                 ids.append(args[i]); i += 1
         if not ids:
-            ids = sorted(os.listdir(SEEDED))
-        res = run(ids, tier, props, scratch)
+            ids = sorted(d for d in os.listdir(SEEDED) if os.path.isdir(os.path.join(SEEDED, d)))
+        if jobs > 1 and scratch:
+            res = run_parallel(ids, tier, props, scratch, jobs)
+        else:
+            res = run(ids, tier, props, scratch)
         json.dump(res, open(os.path.join(ROOT, ".work_mutant_results.json"), "w"), indent=1)
